@@ -8,6 +8,7 @@ package main
 // run as a child process for GOMAXPROCS 1..16, normal and race builds; a crash of the child is the finding.
 
 import (
+	"encoding/binary"
 	"flag"
 	"fmt"
 	"math/rand"
@@ -15,23 +16,35 @@ import (
 	"path/filepath"
 	"time"
 
+	"github.com/piotrnar/gocoin/lib/btc"
+	"github.com/piotrnar/gocoin/lib/script"
+
 	"verifharness/conc"
 )
 
 const (
 	rNTx   = 50
 	rBaseH = 175
+	rFill  = 12 // rNTx * rFill = 600 filler transactions for the large blocks
 )
 
-func refuseScenario() (conc.Scenario, []int) {
+func refuseScenario() (conc.Scenario, []int, []int) {
 	sc := conc.Scenario{Blk: conc.IntMap[conc.BlkDef]{}, Tx: conc.IntMap[conc.TxDef]{}, BaseH: rBaseH}
 	cb := func(b int) []conc.OutDef { return []conc.OutDef{{Amt: amt(50), Addr: 900 + b, St: conc.StP2SH}} }
-	var t1 []int
+	var t1, fill []int
 	var all []conc.InDef
 	for i := 1; i <= rNTx; i++ {
 		id := 1000 + i
 		sc.Tx[id] = conc.TxDef{Ver: 2, Ins: []conc.InDef{{Tx: i, Vout: 1, Ok: true}},
-			Outs: []conc.OutDef{{Amt: amt(16), Addr: 10 + 3*i, St: conc.StP2WPKH}, {Amt: amt(16), Addr: 11 + 3*i, St: conc.StP2WPKH}, {Amt: amt(16), Addr: 12 + 3*i, St: conc.StP2PKH}}}
+			Outs: []conc.OutDef{{Amt: amt(4), Addr: 10 + 3*i, St: conc.StP2WPKH}, {Amt: amt(4), Addr: 11 + 3*i, St: conc.StP2WPKH}, {Amt: amt(4), Addr: 12 + 3*i, St: conc.StP2PKH}}}
+		for m := 0; m < rFill; m++ { // anyone-can-spend outputs for the filler transactions of the large blocks
+			d := sc.Tx[id]
+			d.Outs = append(d.Outs, conc.OutDef{Amt: amt(3), Addr: 2000 + i*rFill + m, St: conc.StP2SH})
+			sc.Tx[id] = d
+			f := 5000 + (i-1)*rFill + m
+			sc.Tx[f] = conc.TxDef{Ver: 2, Ins: []conc.InDef{{Tx: id, Vout: 4 + m, Ok: true}}, Outs: []conc.OutDef{{Amt: amt(2), Addr: 4000 + f, St: conc.StP2SH}}}
+			fill = append(fill, f)
+		}
 		t1 = append(t1, id)
 		for v := 1; v <= 3; v++ {
 			all = append(all, conc.InDef{Tx: id, Vout: v, Ok: true})
@@ -39,7 +52,7 @@ func refuseScenario() (conc.Scenario, []int) {
 	}
 	sc.Blk[1] = conc.BlkDef{Parent: 0, Txs: t1, Cbouts: cb(1)}
 	big := func(id, k int) { // 150 inputs with real signatures
-		sc.Tx[id] = conc.TxDef{Ver: 2, Ins: all, Outs: []conc.OutDef{{Amt: amt(int64(2300 + k)), Addr: 700 + k, St: conc.StP2WPKH}}}
+		sc.Tx[id] = conc.TxDef{Ver: 2, Ins: all, Outs: []conc.OutDef{{Amt: amt(int64(580 + k)), Addr: 700 + k, St: conc.StP2WPKH}}}
 	}
 	bad := map[int]conc.TxDef{
 		1: {Ver: 2, Ins: []conc.InDef{{Tx: 60, Vout: 1, Ok: true}}, Outs: []conc.OutDef{{Amt: amt(60), Addr: 801, St: conc.StP2WPKH}}},              // more spent than at the input
@@ -56,7 +69,63 @@ func refuseScenario() (conc.Scenario, []int) {
 	}
 	big(2005, 5)
 	sc.Blk[20] = conc.BlkDef{Parent: 1, Txs: []int{2005}, Cbouts: cb(20)}
-	return sc, refused
+	sc.Blk[30] = conc.BlkDef{Parent: 20, Txs: fill, Cbouts: cb(30)} // a valid large block: all the fillers
+	return sc, refused, fill
+}
+
+// ---- blocks that only CheckBlock's parallel, context-free CheckTransactions refuses
+
+// mutate returns a copy of the (anyone-can-spend, signature-free) transaction tx that one context-free rule refuses.
+func mutate(tx *btc.Tx, fault string) *btc.Tx {
+	c, _ := btc.NewTx(tx.Raw)
+	switch fault {
+	case "nonfinal": // lock time far in the future and a sequence that does not disable it
+		c.Lock_time = 0xf0000000
+		c.TxIn[0].Sequence = 0xfffffffe
+	case "toolarge": // one output above MAX_MONEY
+		c.TxOut[0].Value = btc.MAX_MONEY + 1
+	case "totaltoolarge": // every output in range, their sum above MAX_MONEY
+		c.TxOut[0].Value = btc.MAX_MONEY - 5
+		c.TxOut = append(c.TxOut, &btc.TxOut{Value: 10, Pk_script: c.TxOut[0].Pk_script})
+	}
+	raw := c.SerializeNew()
+	n, _ := btc.NewTx(raw)
+	if n == nil {
+		panic("undecodable mutated transaction")
+	}
+	n.SetHash(raw)
+	return n
+}
+
+func ownCoinbase(height uint32, extra int) *btc.Tx {
+	tx := &btc.Tx{Version: 2}
+	ti := &btc.TxIn{Sequence: 0xffffffff}
+	ti.Input.Vout = 0xffffffff
+	ti.ScriptSig = append(script.UintToScript(height), 4, byte(extra>>24), byte(extra>>16), byte(extra>>8), byte(extra))
+	tx.TxIn = []*btc.TxIn{ti}
+	tx.TxOut = []*btc.TxOut{{Value: 50e8, Pk_script: conc.PkScript(990, conc.StP2SH)}}
+	raw := tx.SerializeNew()
+	n, _ := btc.NewTx(raw)
+	n.SetHash(raw)
+	return n
+}
+
+// faultyBlock: a block on top of block 1 that is valid in every respect (all inputs exist, are mature and are
+// spent once, scripts pass, amounts balance for the fillers) except for the one mutated transaction at position
+// pos (1 = right after the coinbase, -1 = last); nonce makes every block distinct.
+func faultyBlock(w *conc.World, fill []int, size int, fault string, pos int, nonce int) []byte {
+	parent := w.Block(1)
+	ts := binary.LittleEndian.Uint32(parent[68:72]) + 600 + uint32(nonce%500)
+	txs := []*btc.Tx{ownCoinbase(uint32(w.HeightOf(1)+1), nonce)}
+	for _, f := range fill[:size] {
+		txs = append(txs, w.Tx(f))
+	}
+	k := pos
+	if pos < 0 {
+		k = len(txs) - 1
+	}
+	txs[k] = mutate(txs[k], fault)
+	return conc.MakeBlock(0x20000000, w.BlockHash(1).Hash, ts, conc.MinBits, txs)
 }
 
 func cmdRefuse(args []string) {
@@ -64,8 +133,9 @@ func cmdRefuse(args []string) {
 	dir := fs.String("dir", os.TempDir(), "")
 	seed := fs.Int64("seed", 1, "")
 	rounds := fs.Int("rounds", 3, "")
+	reps := fs.Int("reps", 5, "")
 	fs.Parse(args)
-	sc, refused := refuseScenario()
+	sc, refused, fill := refuseScenario()
 	w, err := conc.NewWorld(sc, *dir, false)
 	if err != nil {
 		fmt.Fprintln(os.Stderr, "world:", err)
@@ -73,6 +143,25 @@ func cmdRefuse(args []string) {
 	}
 	var viol []map[string]interface{}
 	deliveries := 0
+	{
+		// self-test of the block builder: the same large / small block WITHOUT the mutation must be accepted and
+		// connected (so the faulty ones are valid in every respect but the mutated transaction)
+		d := filepath.Join(*dir, "rself")
+		if err := w.CloneBase(d); err != nil {
+			fmt.Fprintln(os.Stderr, err)
+			os.Exit(2)
+		}
+		n := w.OpenNode(d, nil)
+		acc1, _, _ := n.Deliver(w.Block(1))
+		acc2, _, e2 := n.Deliver(faultyBlock(w, fill, len(fill), "", -1, 77))
+		tip, known := n.Tip()
+		if !acc1 || !acc2 || known {
+			fmt.Fprintf(os.Stderr, "self-test: the unmutated own block is not connected: %v %v %v (tip %d)\n", acc1, acc2, e2, tip)
+			os.Exit(2)
+		}
+		n.Close()
+		os.RemoveAll(d)
+	}
 	for round := 0; round < *rounds; round++ {
 		rnd := rand.New(rand.NewSource(*seed*104729 + int64(round)))
 		d := filepath.Join(*dir, "rnode")
@@ -107,11 +196,58 @@ func cmdRefuse(args []string) {
 			}
 			time.Sleep(time.Duration(rnd.Intn(2000)) * time.Microsecond) // (stray workers of a refused block would run now)
 		}
+		// refused by CheckBlock's parallel CheckTransactions only: small and large blocks, fault early or last
+		nonce := round * 100000
+	faults:
+		for _, fault := range []string{"nonfinal", "toolarge", "totaltoolarge"} {
+			for _, shape := range [][2]int{{2, -1}, {len(fill), 1}, {len(fill), -1}} {
+				for rep := 0; rep < *reps; rep++ {
+					nonce++
+					raw := faultyBlock(w, fill, shape[0], fault, shape[1], nonce)
+					bl, e := btc.NewBlock(raw)
+					if e != nil {
+						fmt.Fprintln(os.Stderr, "own block does not parse:", e)
+						os.Exit(2)
+					}
+					n.Ch.BlockIndexAccess.Lock()
+					_, _, e = n.Ch.CheckBlock(bl)
+					n.Ch.BlockIndexAccess.Unlock()
+					deliveries++
+					if e == nil { // follow the wrong verdict through, as the client would
+						e2 := n.Ch.AcceptBlock(bl)
+						tip, known := n.Tip()
+						viol = append(viol, map[string]interface{}{"kind": "verdict", "round": round, "seed": *seed, "fault": fault, "txs": shape[0] + 1, "pos": shape[1],
+							"what": fmt.Sprintf("CheckBlock accepts a block of %d transactions whose transaction at position %d is %s (delivery %d of this shape); AcceptBlock then says %v, tip is a scenario block: %v (%d)", shape[0]+1, shape[1], fault, rep+1, e2, known, tip)})
+						break faults
+					}
+					if tip, _ := n.Tip(); tip != tip0 {
+						viol = append(viol, map[string]interface{}{"kind": "verdict", "round": round, "seed": *seed, "fault": fault, "what": "tip moved after a block CheckBlock refused"})
+						break faults
+					}
+				}
+			}
+		}
+		if len(viol) == 0 {
+			if dump, _ := dumpDigest(n); dump != dump0 {
+				viol = append(viol, map[string]interface{}{"kind": "verdict", "round": round, "seed": *seed, "what": "UTXO set changed by blocks that CheckBlock refused"})
+			}
+		}
+		if len(viol) > 0 {
+			n.Close()
+			os.RemoveAll(d)
+			break
+		}
 		acc, _, _ := n.Deliver(w.Block(20))
 		deliveries++
 		if tip, _ := n.Tip(); !acc || tip != 20 {
 			viol = append(viol, map[string]interface{}{"kind": "verdict", "round": round, "seed": *seed, "block": 20,
-				"what": fmt.Sprintf("the valid block 20 after four refused siblings: accepted=%v tip=%d", acc, tip)})
+				"what": fmt.Sprintf("the valid block 20 after the refused siblings: accepted=%v tip=%d", acc, tip)})
+		}
+		acc, _, e30 := n.Deliver(w.Block(30))
+		deliveries++
+		if tip, _ := n.Tip(); !acc || tip != 30 {
+			viol = append(viol, map[string]interface{}{"kind": "verdict", "round": round, "seed": *seed, "block": 30,
+				"what": fmt.Sprintf("the valid block of %d filler transactions: accepted=%v (%v) tip=%d", len(fill), acc, e30, tip)})
 		}
 		time.Sleep(5 * time.Millisecond)
 		n.Close()
